@@ -120,6 +120,10 @@ func (j JID) WithLocal(localpart string) (JID, error) {
 	var err error
 	data := make([]byte, 0, len(localpart)+len(j.data[j.locallen:]))
 	if localpart != "" {
+		// A JID without a domainpart (the zero value) cannot have a localpart.
+		if j.domainlen == 0 {
+			return j, errInvalidDomainLen
+		}
 		if !utf8.ValidString(localpart) {
 			return j, errInvalidUTF8
 		}
@@ -167,6 +171,11 @@ func (j JID) WithResource(resourcepart string) (JID, error) {
 	data := make([]byte, len(new.data), len(new.data)+len(resourcepart))
 	copy(data, new.data)
 	if resourcepart != "" {
+		// A JID without a domainpart (the zero value) cannot have a
+		// resourcepart.
+		if j.domainlen == 0 {
+			return JID{}, errInvalidDomainLen
+		}
 		if !utf8.ValidString(resourcepart) {
 			return JID{}, errInvalidUTF8
 		}
